@@ -76,6 +76,7 @@ func cmdVC(args []string) {
 	verbose := fs.Bool("v", false, "print every obligation")
 	only := fs.String("only", "", "only obligations whose name contains this")
 	dump := fs.Bool("dump", false, "only write the queries")
+	diag := fs.Bool("diag", false, "split failed goals into conjuncts")
 	port := fs.String("solvers", "z3-new", "comma-separated portfolio")
 	fs.Parse(args)
 	W, err := LoadWorld(repoDir())
@@ -125,6 +126,11 @@ func cmdVC(args []string) {
 		if o.Status != "proved" {
 			bad++
 			fmt.Printf("%-8s %-7s %6.2fs %s  [%s] %s\n", o.Status, o.Backend, o.Time, o.Name, o.Pos, o.Src)
+			if *diag {
+				for _, l := range diagnose(o, time.Duration(*timeout)*time.Second) {
+					fmt.Println(l)
+				}
+			}
 		} else if *verbose {
 			fmt.Printf("%-8s %-7s %6.2fs %s\n", o.Status, o.Backend, o.Time, o.Name)
 		}
